@@ -42,7 +42,18 @@ func c04Spell(r *RNG, s string) string {
 	var b strings.Builder
 	for i := 0; i < len(s); i++ {
 		c := s[i]
-		switch r.Intn(12) {
+		switch r.Intn(14) {
+		case 12:
+			// a reference whose ampersand is itself written as a reference: one round of
+			// resolution leaves the text of a reference, which must be escaped on output
+			fmt.Fprintf(&b, r.PickS([]string{"&amp;#%d;", "&#38;#%d;", "&AMP;#x%x;", "&#x26;#X%X;", "&amp;amp;#%d;"}), c)
+		case 13:
+			if c == ':' {
+				b.WriteString(r.PickS([]string{"&amp;colon;", "&#38;colon;", "&amp;#58;"}))
+			} else {
+				b.WriteString(r.PickS([]string{"&amp;Tab;", "&amp;NewLine;", "&#38;#9;", "&lt;", "&gt;", "&quot;", "&amp;"}))
+				b.WriteByte(c)
+			}
 		case 0:
 			fmt.Fprintf(&b, "&#%d;", c)
 		case 1:
